@@ -774,6 +774,19 @@ func (fr *Frame) makeIface(v Val, ct types.Type, it types.Type, st *State) Val {
 		if len(v.L) == 0 {
 			unsup("address of global in interface")
 		}
+		// ghost updates anchored "at box" (typestate set when an object is first handed out)
+		if !fr.inline && fr.contract != nil {
+			for _, g := range fr.contract.Ghost {
+				if g.At != "box" {
+					continue
+				}
+				genv := ex.newEnv(st, fr.entry, fr)
+				genv.pkg = contractPkg(fr.contract.Func)
+				fr.bindTopVars(genv)
+				genv.vars["$box"] = v
+				genv.assignGhost(g.LHS, g.RHS)
+			}
+		}
 		// an object handed out behind an interface must satisfy its invariants
 		for _, tgt := range ex.P.invTargets(ex, v, ct) {
 			env := ex.newEnv(st, st, fr)
@@ -1050,6 +1063,10 @@ func (ex *Exec) ghostDefaults(st *State, r Term, el types.Type) {
 			z = False
 		case SInt:
 			z = Int(0)
+		case SArrB:
+			z = Term{"((as const (Array Int Bool)) false)", SArrB}
+		case SArr:
+			z = Term{"((as const (Array Int Int)) 0)", SArr}
 		default:
 			continue
 		}
